@@ -6,6 +6,8 @@ pub const FRAGMENTS: &[&str] = &[
     "a", "in", "x1", "_", ".", "true", "not", "AND", "beginWith", "0", "12", "1.5", "e", "E", "+", "-", "*", "=",
     "<", ">", "!", "&", "|", "?", ":", "(", ")", "[", "]", "{", "}", ",", ";", "'", "\"", " ", "\t", "\r", "\n",
     "é", "€", "😀",
+    // characters Unicode calls whitespace but the language does not (1, 2 and 3 bytes)
+    "\u{0b}", "\u{a0}", "\u{3000}",
 ];
 
 /// 16-fragment sub-alphabet: one per tokenizer branch, all three multi-byte widths kept.
